@@ -592,6 +592,45 @@ func famAlias(o *Out, r R, tier string) {
 			}
 		}
 		check("handler-mutating-headers-in-place")
+		// 3a. ... and with values that are meaningful: the handler writes another (not allowed) origin into the slots it can
+		// reach; a later request from exactly that origin must be answered as by a fresh middleware
+		{
+			evil := "https://evil.example.net"
+			evilQ := []reqT{{method: "GET", hdrs: http.Header{"Origin": {evil}}},
+				{method: "OPTIONS", hdrs: http.Header{"Origin": {evil}, "Access-Control-Request-Method": {"PUT"}}}}
+			for _, c := range []*cors.Config{&c1, &c2} {
+				mo := matchingOrigins(c)
+				if len(mo) == 0 {
+					continue
+				}
+				m, _ := cors.NewMiddleware(cloneCfg(*c))
+				if m == nil {
+					continue
+				}
+				m.SetDebug(debug)
+				w := &rw{h: http.Header{}, status: -1}
+				req := &http.Request{Method: "GET", Header: http.Header{"Origin": {mo[0]}}, URL: &url.URL{Path: "/"}, Proto: "HTTP/1.1"}
+				m.Wrap(http.HandlerFunc(func(w2 http.ResponseWriter, r2 *http.Request) {
+					if v := r2.Header["Origin"]; len(v) > 0 {
+						v[0] = evil
+					}
+					for _, v := range w2.Header() {
+						if len(v) > 0 {
+							v[0] = evil
+						}
+					}
+				})).ServeHTTP(w, req)
+				ok, detail := true, ""
+				for _, q := range evilQ {
+					a := str(serveOnce(m, q, http.Header{}).sx())
+					b := str(serveOnce(newMW(c, debug), q, http.Header{}).sx())
+					if a != b {
+						ok, detail = false, "after a handler wrote "+evil+" into its request/response slots, "+str(q.sx())+" is answered "+a+" instead of "+b
+					}
+				}
+				o.emitDirect("alias/handler-writes-an-origin", ok, str(cfgSX(c))+" "+detail)
+			}
+		}
 		// 3b. plain request history: earlier (successful) requests must not change how later ones are answered
 		for _, m := range []*cors.Middleware{m1, &m2} {
 			for _, q := range warm {
@@ -919,12 +958,19 @@ func (w *reuseW) Header() http.Header         { return w.h }
 func (w *reuseW) WriteHeader(int)             {}
 func (w *reuseW) Write(p []byte) (int, error) { return len(p), nil }
 
-func allocsFor(m *cors.Middleware, q reqT) float64 {
+func allocsFor(m *cors.Middleware, q reqT) float64 { return allocsForPre(m, q, nil) }
+
+// allocsForPre: pre holds response headers an outer layer has set before the middleware runs (re-installed before every
+// run without allocating; the slices have no spare capacity)
+func allocsForPre(m *cors.Middleware, q reqT, pre http.Header) float64 {
 	w := &reuseW{h: make(http.Header, 8)}
 	req := &http.Request{Method: q.method, Header: q.hdrs, URL: &url.URL{Path: "/"}, Proto: "HTTP/1.1"}
 	h := m.Wrap(http.HandlerFunc(func(http.ResponseWriter, *http.Request) {}))
 	return testing.AllocsPerRun(20, func() {
 		clear(w.h)
+		for k, v := range pre {
+			w.h[k] = v[:len(v):len(v)]
+		}
 		h.ServeHTTP(w, req)
 	})
 }
@@ -993,6 +1039,13 @@ func famAlloc(o *Out, r R, tier string) {
 					}
 					l[0] = "x-a"
 					q.hdrs["Access-Control-Request-Headers"] = l[:min(n, 16)]
+				case "acrh-long-then-lines": // one over-long field line followed by n short ones
+					l := make([]string, n+1)
+					l[0] = strings.Repeat("a", 4097)
+					for i := 1; i <= n; i++ {
+						l[i] = "x-a"
+					}
+					q.hdrs["Access-Control-Request-Headers"] = l
 				case "acrh-ows":
 					q.hdrs["Access-Control-Request-Headers"] = []string{strings.Repeat(" ", n) + "x-a"}
 				case "actual-origin-len":
@@ -1002,11 +1055,17 @@ func famAlloc(o *Out, r R, tier string) {
 				}
 				return q
 			}
-			for _, kind := range []string{"origin-len", "origin-values", "origin-upper", "acrm-len", "acrm-values", "acrpn-values", "acrh-elems-valid", "acrh-elems", "acrh-elems-upper", "acrh-elems-mixed", "acrh-len", "acrh-lines", "acrh-lines-upper", "acrh-lines-valid", "acrh-ows", "actual-origin-len", "actual"} {
-				base := allocsFor(m, mk(kind, 1))
+			for _, kind := range []string{"origin-len", "origin-values", "origin-upper", "acrm-len", "acrm-values", "acrpn-values", "acrh-elems-valid", "acrh-elems", "acrh-elems-upper", "acrh-elems-mixed", "acrh-len", "acrh-lines", "acrh-lines-upper", "acrh-lines-valid", "acrh-ows", "actual-origin-len", "actual", "acrh-long-then-lines", "preset/acrh-lines", "preset/acrh-elems", "preset/acrm-len"} {
+				var pre http.Header
+				reqKind := kind
+				if strings.HasPrefix(kind, "preset/") { // an outer layer has already set list-based CORS headers and Vary
+					pre = http.Header{"Access-Control-Allow-Headers": {"x-outer"}, "Access-Control-Allow-Methods": {"X-OUTER"}, "Vary": {"Accept-Encoding"}}
+					reqKind = strings.TrimPrefix(kind, "preset/")
+				}
+				base := allocsForPre(m, mk(reqKind, 1), pre)
 				worst, at := base, 1
 				for _, n := range sizes[1:] {
-					a := allocsFor(m, mk(kind, n))
+					a := allocsForPre(m, mk(reqKind, n), pre)
 					if a > worst {
 						worst, at = a, n
 					}
